@@ -702,6 +702,14 @@ for _c in (0, 1, 2, 3):
       unwind=6, cbmc=['--unwindset', 'realloc.0:66,oer_fetch_length.0:10,oer_fetch_length.1:10,oer_fetch_quantity.0:10,oer_fetch_quantity.1:10,vf_cb.0:14,oer_put_quantity.0:10', '--no-malloc-may-fail'], bound='lists of exactly %d stub elements' % _c, min_props=40, timeout=600,
       **dict(SQF, defines=['VF_CB_CAP=12', 'VF_COUNT=%d' % _c]))
 
+O(id='SET_encode_der', props=['C02', 'C06', 'C07', 'C14'], kind='bounded', entry='h_SET_encode_der', harness='harness/h_set_enc.c',
+  units=[SK + 'constr_SET.c', SK + 'der_encoder.c', SK + 'constr_TYPE.c'], link=[SK + 'der_encoder.c', SK + 'ber_tlv_tag.c', SK + 'ber_tlv_length.c', SK + 'constr_TYPE.c'],
+  functions=['SET_encode_der', 'der_write_tags', 'asn_TYPE_outmost_tag', '_t2e_cmp'], stubs=['stubs/qsort_gen.c'], defines=['VF_CB_CAP=12'],
+  fp_restrict=[(r'der_encoder\)$', ['sv_der', 'svc_der']), (r'outmost_tag\)$', ['svc_outmost']), (r'::cb$', ['vf_cb']), (r'compar$', ['_t2e_cmp'])],
+  unwind=14, cbmc=['--unwindset', 'qsort.0:66', '--malloc-may-fail', '--malloc-fail-null', '--memory-leak-check'],
+  bound='SET { a [2], b [0] OPTIONAL, c untagged CHOICE ([1] or [3]) } of stub members: every value and presence combination, every callback failure point, every allocation may fail',
+  trusted=['member types are harness stubs', 'stubs/qsort_gen.c'], min_props=60, timeout=900)
+
 for _o in OBLIGATIONS:
     if _o.get('enforce') and _o.get('kind') in ('enforce', 'width') and _o.get('tier') == 'quick' and 'C19' not in _o['props']:
         _o['props'] = _o['props'] + ['C19']
